@@ -1098,7 +1098,9 @@ def w10(e: Engine, rep: Report):
         if n.kind == 'stmt' and isinstance(n.ast, ast.AugAssign) and \
                 'line' in ast.unparse(n.ast.target).lower() and \
                 isinstance(n.ast.target, ast.Name) and \
-                isinstance(n.ast.value, (ast.List, ast.Call, ast.Name)):
+                isinstance(n.ast.value, (ast.List, ast.Call, ast.Name)) and \
+                not (isinstance(n.ast.value, ast.List) and
+                     len(n.ast.value.elts) == 1):
             bad = n
     rep.check(bad is None, 'W10', where, 'one wire line per text line',
               '`%s` puts several wire lines where the text has one: the '
@@ -1120,9 +1122,23 @@ def w11(e: Engine, rep: Report):
         return
     rep.functions.add(getter.qname)
     rep.evaluations += 1
+    par = {}
+    for x in ast.walk(getter.node):
+        for ch in ast.iter_child_nodes(x):
+            par[ch] = x
+
+    def only_tested(x):
+        """the read is (part of) a branch condition: `self._esc is
+        False`, `if self._esc:` - not what the text is made of"""
+        up = par.get(x)
+        while isinstance(up, (ast.UnaryOp, ast.BoolOp, ast.Compare)):
+            x, up = up, par.get(up)
+        return isinstance(up, (ast.If, ast.IfExp, ast.While)) and \
+            up.test is x
     direct = [x for x in walk_own(getter.node)
               if isinstance(x, ast.Attribute) and x.attr == '_esc' and
-              isinstance(x.value, ast.Name) and x.value.id == 'self']
+              isinstance(x.value, ast.Name) and x.value.id == 'self' and
+              not only_tested(x)]
     rep.check(not direct, 'W11', getter.qname,
               'the getter takes the ESC from the property',
               'the message getter reads self._esc itself: the class digit '
